@@ -31,13 +31,15 @@ Definition outcome_eqb (a b : outcome) : bool :=
 
 (* ---------- observations of an execution ---------- *)
 
-(* kind: 0 halted, 1 fault at line, 2 still running after the step bound (line = pc) *)
+(* kind: 0 halted, 1 fault at line, 2 still running after the step bound (line = pc),
+   3 blocked in a wait instruction at line *)
 Record obs := mkObs {
   o_kind : Z; o_line : Z;
   o_regs : list (reg * Z);                       (* defined registers, bank-major order *)
   o_arr : list (Z * list (option Z));
   o_shreg : list (reg * Z);
-  o_sharr : list (Z * list (option Z))
+  o_sharr : list (Z * list (option Z));
+  o_alias : list Z                               (* shared arrays that ARE the application's list object *)
 }.
 
 Definition all_regs : list reg :=
@@ -80,35 +82,47 @@ Definition mem_matches (m : amem) (o : obs) : bool :=
 
 (* the assembled program on the model interpreter reproduces the executor exactly
    (all 64 registers, memory, outcome, line) *)
-Definition tgt_matches (T : list acmd) (fuel : nat) (o : obs) : bool :=
+Definition tgt_matches (T : list acmd) (fuel : nat) (start : astate) (o : obs) : bool :=
   let all (_ : reg) := true in
-  match arun T fuel (Run 0 init_state) with
+  match arun T fuel (Run 0 start) with
   | Halted st => (o_kind o =? 0) && list_eqb regval_eqb (regs_view all (s_regs st)) (o_regs o) && mem_matches (s_mem st) o
   | Fault k st => (o_kind o =? 1) && (o_line o =? Z.of_nat k)
                   && list_eqb regval_eqb (regs_view all (s_regs st)) (o_regs o) && mem_matches (s_mem st) o
   | Run pc st => (o_kind o =? 2) && (o_line o =? Z.of_nat pc)
                  && list_eqb regval_eqb (regs_view all (s_regs st)) (o_regs o) && mem_matches (s_mem st) o
-  | Stuck _ _ => false
+  | Stuck k st => (o_kind o =? 3) && (o_line o =? Z.of_nat k)
+                  && list_eqb regval_eqb (regs_view all (s_regs st)) (o_regs o) && mem_matches (s_mem st) o
   end.
 
 (* the property's oracle: the executor's result equals the direct interpretation of
    the SOURCE program on every register that is not a possible scratch register,
    on arrays and shared memory; a fault is at the last line of the faulting
    command's block *)
-Definition src_matches (pr : aparams) (P : list acmd) (fuel : nat) (o : obs) : bool :=
+Definition src_matches (pr : aparams) (P : list acmd) (fuel : nat) (start : astate) (o : obs) : bool :=
   let nm := named P in
   let keep (r : reg) := negb (fst r =? ap_bankR pr) || mem_reg r nm in
   let view st := regs_view keep (s_regs st) in
   let oview := filter (fun p => keep (fst p)) (o_regs o) in
-  match arun P fuel (Run 0 init_state) with
+  let last k := (pcmap pr P k + match nth_error P k with Some c => nsets pr nm c | None => 0 end)%nat in
+  match arun P fuel (Run 0 start) with
   | Halted st => (o_kind o =? 0) && list_eqb regval_eqb (view st) oview && mem_matches (s_mem st) o
   | Fault k st =>
       (o_kind o =? 1)
-      && (o_line o =? Z.of_nat (pcmap pr P k + match nth_error P k with Some c => nsets pr nm c | None => 0 end))
+      && (o_line o =? Z.of_nat (last k))
       && list_eqb regval_eqb (view st) oview && mem_matches (s_mem st) o
   | Run _ _ => o_kind o =? 2      (* both still running after the bound: nothing to compare *)
-  | Stuck _ _ => false
+  | Stuck k st =>
+      (o_kind o =? 3) && (o_line o =? Z.of_nat (last k))
+      && list_eqb regval_eqb (view st) oview && mem_matches (s_mem st) o
   end.
+
+(* the application state the executor was left in (registers and arrays persist
+   between the subroutines of an application) *)
+Definition state_of_obs (o : obs) : astate :=
+  mkSt (fun r => rlookup (o_regs o) r)
+       (mkMem (o_arr o) (o_shreg o)
+              (map (fun p => (fst p, if existsb (Z.eqb (fst p)) (o_alias o) then ShAlias else ShFrozen (snd p)))
+                   (o_sharr o))).
 
 (* ---------- C03 cases ---------- *)
 
@@ -122,19 +136,45 @@ Record acase := mkAC {
 
 (* result code: 0 ok; +1 instruction lists differ; +2 oracle (source meaning) differs;
    +4 model interpreter differs from the executor on the assembled program *)
-Definition check_acase (pr : aparams) (bk : banks) (gi : list string) (t : list row) (c : acase) : Z :=
-  let P := match c_lines c with Some ls => parse_text bk gi ls | None => Some (c_prog c) end in
-  let a := if outcome_eqb (model_outcome pr t P) (c_out c) then 0 else 1 in
-  match P, c_obs c with
+Definition check_prog (pr : aparams) (t : list row) (P : option (list acmd)) (out : outcome)
+           (fuel : nat) (start : astate) (ob : option obs) : Z :=
+  let a := if outcome_eqb (model_outcome pr t P) out then 0 else 1 in
+  match P, ob with
   | Some P, Some o =>
-      let b := if src_matches pr P (c_fuel c) o then 0 else 2 in
+      let b := if src_matches pr P fuel start o then 0 else 2 in
       let d := match assemble pr t P with
-               | AOk B => if tgt_matches (map embed B) (c_fuel c) o then 0 else 4
+               | AOk B => if tgt_matches (map embed B) fuel start o then 0 else 4
                | AErr _ => 4
                end in
       a + b + d
   | _, _ => a
   end.
+
+Definition check_acase (pr : aparams) (bk : banks) (gi : list string) (t : list row) (c : acase) : Z :=
+  let P := match c_lines c with Some ls => parse_text bk gi ls | None => Some (c_prog c) end in
+  check_prog pr t P (c_out c) (c_fuel c) init_state (c_obs c).
+
+(* ---------- C03: sequences of subroutines of one application ---------- *)
+
+Record sstep := mkSS { ss_prog : list acmd; ss_out : outcome; ss_obs : option obs }.
+
+(* every subroutine starts, in source and in target, from the state the executor
+   was really left in by the previous one; the code of the first differing step *)
+Fixpoint check_steps (pr : aparams) (t : list row) (fuel : nat) (start : astate) (l : list sstep) : Z :=
+  match l with
+  | [] => 0
+  | s :: r =>
+      let c := check_prog pr t (Some (ss_prog s)) (ss_out s) fuel start (ss_obs s) in
+      if c =? 0 then
+        match ss_obs s with
+        | Some o => if o_kind o =? 0 then check_steps pr t fuel (state_of_obs o) r else 0
+        | None => 0
+        end
+      else c
+  end.
+
+Definition check_scase (pr : aparams) (t : list row) (fuel : nat) (l : list sstep) : Z :=
+  check_steps pr t fuel init_state l.
 
 Fixpoint codes_from {A} (chk : A -> Z) (i : Z) (l : list A) : list Z :=
   match l with
